@@ -70,10 +70,15 @@ def run(tier, seed):
                       gen_bytes(rng, rng.choice([0, 1, 15, 16, 17, 31, 32, 33, rng.randrange(0, 600)]))))
     replies = lean_batch(['hexdump %d %d %s' % (l, c, tb(b)) for (l, c, b) in cases])
     for (l, c, b), r in zip(cases, replies):
-        real = hd.hexdump(memoryview(b), l, c)
+        rp = {'op': 'hexdump', 'bytes_per_line': l, 'bytes_per_chunk': c, 'data_hex': b.hex()}
+        try:
+            real = hd.hexdump(memoryview(b), l, c)
+        except Exception as e:  # noqa  -- every setting generated here (1..256 each) is a permitted one
+            ck.case(key=(l, c, len(b), hash(b)))
+            ck.fail('hexdump raises for a permitted bytes-per-line / bytes-per-chunk setting', rp | {'actual': '%s: %s' % (type(e).__name__, str(e)[:100])}, 'hexdump_raises')
+            continue
         ck.case(key=(l, c, len(b), hash(b)) if b else None, sample={'op': 'hexdump', 'l': l, 'c': c, 'data': b.hex()[:64]})
         ck.count('hexdump len=%s' % ('0' if not b else '<l' if len(b) < l else '=l' if len(b) == l else '>l'))
-        rp = {'op': 'hexdump', 'bytes_per_line': l, 'bytes_per_chunk': c, 'data_hex': b.hex()}
         # property on the real code
         if len(real) != math.ceil(len(b) / l):
             ck.fail('hexdump line count', rp | {'actual_lines': len(real)}, 'line_count')
